@@ -4178,10 +4178,41 @@ def _parse_simple_lines(
                 i += 1
                 continue
 
-        # unknown → ignore
+        # Statements without meaning on the device (pass, global, imports, docstrings,
+        # target()/print() calls) and fragments of multi-line constructs are skipped.
+        # Any other complete statement cannot be translated: reject it instead of
+        # silently dropping it from the firmware.
+        try:
+            stmt_nodes = ast.parse(line).body
+        except SyntaxError:
+            stmt_nodes = []
+        if stmt_nodes and not _is_host_only_statement(stmt_nodes[0]):
+            raise ValueError(f"unsupported statement: {line}")
         i += 1
 
     return body
+
+
+def _is_host_only_statement(node: ast.stmt) -> bool:
+    """Return ``True`` for statements that are legitimately absent from the firmware."""
+
+    if isinstance(node, (ast.Pass, ast.Global, ast.Nonlocal, ast.Import, ast.ImportFrom)):
+        return True
+    if isinstance(node, ast.Expr):
+        value = node.value
+        if (
+            isinstance(value, ast.Call)
+            and isinstance(value.func, ast.Name)
+            and value.func.id in {"print", "target"}
+        ):
+            return True
+        # Expressions without calls have no effect (docstrings, or name lists
+        # left over from a parenthesised multi-line import).
+        return not any(
+            isinstance(sub, (ast.Call, ast.Await, ast.Yield, ast.YieldFrom, ast.NamedExpr))
+            for sub in ast.walk(value)
+        )
+    return False
 
 
 def parse(src: str) -> Program:
